@@ -320,7 +320,11 @@ def classOutcome (s : String) : Option (List Outcome) :=
 /-- script steps; `vals` gives the value id of every `P` step in order -/
 def parseBSteps : List String → List Nat → Option (List BStep)
   | [], _ => some []
-  | st :: rest, vals =>
+  | st0 :: rest, vals =>
+    -- `c` / `k` / `x` in front of P/U: the context the operation was submitted with (request-scoped and cancelled
+    -- after the call / already done / expiring). The state layer ignores it (`Ctx.take_ctx_irrelevant`): same step.
+    let st := if (st0.startsWith "cP" || st0.startsWith "cU" || st0.startsWith "kP" || st0.startsWith "kU" ||
+                  st0.startsWith "xP" || st0.startsWith "xU") then dropS st0 1 else st0
     if st.startsWith "P" then
       match vals, ((dropS st 1).splitOn "/").head?.bind String.toNat? with
       | v :: vs, some c => (parseBSteps rest vs).map (fun l => .op (.put c v) :: l)
@@ -570,9 +574,11 @@ def answerBatch (pre post : List String) : String :=
             let c : BatchCase := { ops := b.ops, obs := b.obs }
             let fl := failed (batchClauses c)
             let nref := (b.ops.filter (fun q => q.2 == .refused)).length
+            let nctx := ((splitSemi script).filter (fun st => st.startsWith "c" || st.startsWith "k" || st.startsWith "x")).length
             let arm := "batch-" ++ toString bc.mode ++
               (if bc.mode == 'N' then "" else if bc.cfg.maxSize ≥ 50 then "-age" else "-size" ++ toString bc.cfg.maxSize) ++
               (if nref > 0 then "-refused" else "") ++
+              (if nctx > 0 then "-ctx" else "") ++
               (if firedW == "-" then "" else "-fail" ++ firedW) ++
               (if bc.mode == 'S' then "-cuts" ++ toString (min 4 b.s.height) else "")
             if !fl.isEmpty then
